@@ -285,6 +285,11 @@ def scn_full(ctx):
         ctx.nontrivial = True
     if rows == 0:
         ctx.nontrivial = True
+    # the table returned first must still be what it was (a later run must not write into
+    # arrays a previous run handed out)
+    d = _diff(c0, canon(R0))
+    if d:
+        raise Violation("c14.result_overwritten", f"the table returned by the first run changed while later runs executed in the same process: {d}", sig="compute:aliasing")
 
 
 def _alignment(ctx, R0, cfg, g, target, opt, massTau, Taus):
